@@ -615,8 +615,6 @@ class Executor3(Executor2):
                         return self.exec_for_reflist(s, st, iter_expr=it)
         return Executor2.exec_loop(self, s, st)
 
-    iter_views = {}
-
     def exec_for_reflist(self, s, st, iter_expr=None):
         from . import frontend
         m, ci, fn = frontend.resolve(self.cur.target)
